@@ -207,7 +207,7 @@ var propDocs = map[string]propDoc{
 		Assumptions: contractBase,
 	},
 	"C08": {
-		Explanation: "R9a/R9b as for C07 over the sources Concat.axis, Gather.axis, Gather inputs[1] (index data), Slice inputs[3], Transpose.perm (perm is exempt from R9b: no negative spelling), with axis contracts for gorgonia callees (Concat validates both sides, Transpose validates permutations, Slice/At validate ranges; a validating callee only counts when its error is handled). R10 every tensor.Repeat reachable from Expand.Apply is dominated by extent==1 of the repeated tensor at the repeated axis. R19 the view returned by Tensor.Slice is reshaped before Slice.Apply returns it. R20 Data() passes the scalar wrapper before slice assertions. R3 operands not modified. R7t Transpose.Apply returns tensor.Transpose(input, perm...) on every success path; Expand.Apply returns the first result of the shared multidirectional broadcast helper applied to (input, fresh tensor of the requested shape). R22 no lax Shape.Eq reachable from the five operators except the audited ops.PairwiseAssign. NOT decided: ONNX index formulas, clamping, negative steps, data movement inside gorgonia.",
+		Explanation: "R9a/R9b as for C07 over the sources Concat.axis, Gather.axis, Gather inputs[1] (index data), Slice inputs[3], Transpose.perm (perm is exempt from R9b: no negative spelling), with axis contracts for gorgonia callees (Concat validates both sides, Transpose validates permutations, Slice/At validate ranges; a validating callee only counts when its error is handled). R10 every tensor.Repeat reachable from Expand.Apply is dominated by extent==1 of the repeated tensor at the repeated axis. R19 the view returned by Tensor.Slice is reshaped before Slice.Apply returns it; user steps reach Tensor.Slice only as 1 or after a divisibility test and user ranges only with start < end (gorgonia rounds the count down on axis 0 and turns an empty range into one element). R20 Data() passes the scalar wrapper before slice assertions. R3 operands not modified. R7t Transpose.Apply returns tensor.Transpose(input, perm...) on every success path; Expand.Apply returns the first result of the shared multidirectional broadcast helper applied to (input, fresh tensor of the requested shape). R22 no lax Shape.Eq reachable from the five operators except the audited ops.PairwiseAssign. NOT decided: ONNX index formulas, clamping, negative steps, data movement inside gorgonia.",
 		Assumptions: contractBase,
 	},
 	"C09": {
